@@ -125,6 +125,17 @@ CHECKS['C17'] = {
     'note': 'Trusted: atomic file writes (kills between writes only); stub PageParser; the induction from the three per-call obligations to arbitrary crash/resume sequences is a pen-and-paper argument in DESIGN.md.',
 }
 
+CHECKS['C09'] = {
+    'level': 'other',
+    'technique': 'hybrid: deductive proof (heap model, slice mode) of the restore loop of load_logits and of get_dense_logits + bounded round trips with real pickle/scipy',
+    'text': ('PROVED for all layouts/files: the restore loop of load_logits sets logits/characters/logit_coords of exactly the lines whose id is in the file to the '
+             'file entries and leaves every other line untouched (nested-loop invariants + frame); get_dense_logits returns stored entries unchanged and the floor '
+             'for pruned ones. BOUNDED: save/load via path and bytes for 0..3 lines x 5 sparse matrices x charsets x coords, subset/superset/reordered targets, '
+             'missing components reported and nothing written, legacy files, row-normalised log-probabilities, PAGE XML + logits rebuild gives the same greedy '
+             'text and ALTO words. _gen_logits is bounded only.'),
+    'note': 'Trusted: pyvc; pickle and scipy.sparse (A6); slice mode starts at the loop with arbitrary dictionaries; precondition: no stored entry is exactly 0.0.',
+}
+
 NOT_APPLICABLE = {
     'C20': ('equality up to round-off of float tensors produced by torch C++ kernels through module-resident caches across calls: no contract '
             'within reach can state it over reals, no finite domain makes a bounded check exhaustive; a random differential test would be a different technique (DESIGN.md §6)'),
